@@ -174,6 +174,107 @@ class Ex:
         return self.block(list(f.body))
 
 
+# ---------------------------------------------------------------------------------------------------------------
+# which file is it?  `file_of` above classifies a path argument by its *name*; the facts below follow the *value*: a small
+# symbolic evaluation of the constructor (the given path is the symbol P; `str(x)` / `Path(x)` are the identity, `x + ".tsv"`
+# and `x += ".tsv"` append, the buffer name is recognised by shape), forking at every `if` that assigns a path variable.
+# For every branch it records the value stored as the output file and as the buffer file, and for every file operation the
+# value of its path argument.
+PATH_HELPERS = ("_load_first_column_entries", "_write_content", "_read_first_row", "os.remove", "os.unlink", "open", "Panoptica_Statistic.from_file")
+
+
+def _key(node):
+    t = src(node)
+    return re.sub(r"^self\._?\w*?__", "self.__", t) if t.startswith("self.") else t
+
+
+def sym(node, env):
+    """symbolic value of a path expression, or None"""
+    if isinstance(node, ast.Constant) and isinstance(node.value, str):
+        return repr(node.value)
+    if isinstance(node, (ast.Name, ast.Attribute)) and _key(node) in env:
+        return env[_key(node)]
+    if isinstance(node, ast.Call) and src(node.func) in ("str", "Path") and len(node.args) == 1 and not node.keywords:
+        return sym(node.args[0], env)
+    if isinstance(node, ast.BinOp) and isinstance(node.op, ast.Add):
+        a, b = sym(node.left, env), sym(node.right, env)
+        return None if a is None or b is None else f"{a}+{b}"
+    if isinstance(node, ast.Call) and isinstance(node.func, ast.Attribute) and node.func.attr in ("joinpath", "with_name") and len(node.args) == 1:
+        # Path(X).parent.joinpath(NAME)  /  Path(X).with_name(NAME): a sibling of X
+        base = node.func.value
+        if node.func.attr == "joinpath":
+            if not (isinstance(base, ast.Attribute) and base.attr == "parent"):
+                return None
+            base = base.value
+        a, b = sym(base, env), sym(node.args[0], env)
+        return None if a is None or b is None else f"sibling({a}, {b})"
+    if isinstance(node, ast.Attribute) and node.attr == "stem":
+        a = sym(node.value, env)
+        return None if a is None else f"stem({a})"
+    return None
+
+
+def path_facts(cls):
+    methods = {n.name: n for n in cls.body if isinstance(n, ast.FunctionDef)}
+    init = methods.get("__init__")
+    uses, branches = [], []
+    if init is None:
+        return [], [("MISSING __init__", "?", "?")]
+    PATHVARS = re.compile(r"output_file|out_file|buffer_file")
+
+    def assigns_path(stmts):
+        for st in stmts:
+            for n in ast.walk(st):
+                if isinstance(n, (ast.Assign, ast.AugAssign, ast.AnnAssign)):
+                    tg = n.targets[0] if isinstance(n, ast.Assign) else n.target
+                    if PATHVARS.search(src(tg)):
+                        return True
+        return False
+
+    def record(node, env, label):
+        for c in ast.walk(node):
+            if isinstance(c, ast.Call) and src(c.func) in PATH_HELPERS and c.args and file_of(c.args[0]):
+                v = sym(c.args[0], env)
+                uses.append((file_of(c.args[0])[1:], src(c)[:60], label, v if v is not None else "other:" + src(c.args[0])))
+
+    def run(stmts, env, label, cont):
+        """process stmts in env; `cont(env, label)` is called for every path through"""
+        if not stmts:
+            return cont(env, label)
+        st, rest = stmts[0], stmts[1:]
+        if isinstance(st, ast.If) and (assigns_path(st.body) or assigns_path(st.orelse)):
+            t = src(st.test)
+            if re.fullmatch(r"isinstance\(\w+, str\)", t):      # str -> Path conversion: the same value either way
+                return run(list(st.body) + rest, dict(env), label, cont)
+            run(list(st.body) + rest, dict(env), (label + " & " if label else "") + t, cont)
+            run(list(st.orelse) + rest, dict(env), (label + " & " if label else "") + "not (" + t + ")", cont)
+            return
+        if isinstance(st, (ast.Assign, ast.AnnAssign)) and (st.value is not None):
+            tg = st.targets[0] if isinstance(st, ast.Assign) else st.target
+            record(st.value, env, label)
+            if PATHVARS.search(src(tg)):
+                v = sym(st.value, env)
+                env[_key(tg)] = v if v is not None else "other:" + src(st.value)
+            return run(rest, env, label, cont)
+        if isinstance(st, ast.AugAssign) and PATHVARS.search(src(st.target)) and isinstance(st.op, ast.Add):
+            a, b = env.get(_key(st.target)), sym(st.value, env)
+            env[_key(st.target)] = f"{a}+{b}" if a is not None and b is not None else "other:" + src(st)
+            return run(rest, env, label, cont)
+        record(st, env, label)
+        return run(rest, env, label, cont)
+
+    def done(env, label):
+        branches.append((label or "always", env.get("self.__output_file", "?"), env.get("self.__output_buffer_file", "?")))
+        # the other methods see the two attributes only
+        for m in ("evaluate", "_save_one_subject", "make_statistic"):
+            if m in methods:
+                record(methods[m], {"self.__output_file": env.get("self.__output_file", "?"),
+                                    "self.__output_buffer_file": env.get("self.__output_buffer_file", "?")}, label or "always")
+    arg = init.args.args[2].arg if len(init.args.args) > 2 else "output_file"
+    run(list(init.body), {arg: "P"}, "", done)
+    return uses, branches
+
+
 def generate() -> str:
     tree = ast.parse(open(os.path.join(REPO, "panoptica/panoptica_aggregator.py")).read())
     cls = next((n for n in ast.walk(tree) if isinstance(n, ast.ClassDef) and n.name == "Panoptica_Aggregator"), None)
@@ -194,6 +295,11 @@ def generate() -> str:
     # the two module-level locks must be two distinct multiprocessing locks
     ok = locks.get("inevalfilelock") == "Lock()" and locks.get("filelock") == "Lock()"
     out.append(f"def moduleLocksDistinct : Bool := {'true' if ok else 'false'}")
+    uses, branches = path_facts(cls) if cls is not None else ([], [("MISSING class", "?", "?")])
+    out.append("/-- (branch of the constructor, value stored as the output file, value stored as the buffer file); P = the path given -/")
+    out.append("def pathBranches : List (String × String × String) := [" + ", ".join(f"({lean_str(a)}, {lean_str(b)}, {lean_str(c)})" for a, b, c in branches) + "]")
+    out.append("/-- (file the operation is classified as, operation, branch, value of its path argument) -/")
+    out.append("def pathUses : List (String × String × String × String) := [" + ",\n  ".join(f"({lean_str(a)}, {lean_str(b)}, {lean_str(c)}, {lean_str(d)})" for a, b, c, d in uses) + "]")
     out.append("\nend Panoptica.Generated\n")
     return "\n".join(out)
 
